@@ -138,6 +138,37 @@ def b_rules(p: Project, rep: Report):
                 rep.check("B-R6", f"{clsname}.regex:{gname}-admits-uid-alphabet", ok, f"the regex group for {fname.upper()} rejects {miss[:8]} / allows at most {maxrep} characters: a header the library itself generates is refused" if not ok else "", r.where)
             elif kind == "Integer":
                 rep.check("B-R6", f"{clsname}.regex:{gname}-admits-digits", set("0123456789") <= cs, "", r.where)
+    # B-R7 / B-R8: what the pattern lets through before any validator sees it
+    rep.rule("B-R7", "a missing mandatory field is refused: every named group of a header pattern lies on the pattern's mandatory spine (not under `?`, `*`, `{0,n}` or an alternative) - except COMPRESSION of the v1 header, which the pattern of the pinned tree makes optional and the constructor defaults")
+    rep.rule("B-R8", "an over-long last field is refused, not cut: the pattern is applied with match() (no end anchor), so its final consuming item must not have a finite upper bound - a bounded `{1,36}` there stops after 36 characters, hands a valid-looking value to the validator and leaves the rest in front of the message body")
+    OPTIONAL_OK = {("OFXHeaderV1", "COMPRESSION")}
+    for clsname in ("OFXHeaderV1", "OFXHeaderV2"):
+        try:
+            r = rx.class_regex(p, HEADER, clsname)
+        except AnalysisError as e:
+            rep.undecided(f"B-R7 {clsname}", e)
+            continue
+        for g in r.group_order():
+            _items, path = r.find_group(g)
+            optional = any((el[0] == "repeat" and el[1] == 0) or el[0] in ("branch", "assert") for el in (path or []))
+            if (clsname, g) in OPTIONAL_OK:
+                continue
+            rep.check("B-R7", f"{clsname}.regex:{g}:mandatory", not optional, f"the {g} field sits in an optional part of the pattern: a header without it is accepted and the constructor silently fills in a default" if optional else "", r.where)
+        # the final consuming item
+        last = None
+        seq = list(r.tree)
+        while seq:
+            op, av = seq[-1]
+            if op is rx.sre_c.SUBPATTERN:
+                seq = list(av[3])
+                continue
+            if op in (rx.sre_c.MAX_REPEAT, rx.sre_c.MIN_REPEAT):
+                last = (op, av)
+            break
+        if last is not None:
+            lo, hi, _inner = last[1]
+            bounded = hi is not rx.sre_c.MAXREPEAT and hi > 1
+            rep.check("B-R8", f"{clsname}.regex:last-item-unbounded", not bounded, f"the pattern ends in a repetition of at most {hi}: applied with match(), an over-long final field is cut to {hi} characters instead of being refused, and the remainder is taken for the start of the message body" if bounded else "", r.where)
     # B-R5 parse
     from .flat import flat as _flat
 
